@@ -20,6 +20,7 @@ import (
 	"verif/mc/fx"
 	"verif/mc/hx"
 	"verif/mc/ref/doc"
+	"verif/mc/ref/jcs"
 	"verif/mc/ref/sidetree"
 )
 
@@ -52,7 +53,7 @@ func c06(r *hx.Run) {
 	fx.Quiet()
 	client, v := stdClient()
 	delta := v.P.MaxOperationTimeDelta
-	r.Rule = "for every history of <=3 (thorough: <=4 over a sub-alphabet) anchored operations (legitimate alphabet, published and unpublished, non-monotone coordinates) x every cut time T in {pre-epoch, 0..maxTime+1} x every version id present or unknown x every single later-anchored extension (placed in the store, and passed by the caller through WithAdditionalOperations before and after the version option): Resolve(history, WithVersionTime/WithVersionID) on the real processor must equal Resolve over the truncated history on the real processor (metamorphic) and the reference model; unknown version id / empty truncation must be an error. Non-trivial: the cut removes at least one and keeps at least one operation."
+	r.Rule = "for every history of <=3 (thorough: <=4 over a sub-alphabet) anchored operations (legitimate alphabet, published and unpublished, non-monotone coordinates) x every cut time T in {pre-epoch, 0..maxTime+1} x every version id present or unknown x every single later-anchored extension (placed in the store, and passed by the caller through WithAdditionalOperations before and after the version option): Resolve(history, WithVersionTime/WithVersionID) on the real processor must equal Resolve over the truncated history on the real processor (metamorphic) and the reference model; unknown version id / empty truncation must be an error. The same cuts go through the REST resolve handler (versionId / versionTime / both) for two histories, addressed by the short-form and by the long-form DID: status and document must agree with the processor view (an unknown version of an anchored DID is an error in both forms). Non-trivial: the cut removes at least one and keeps at least one operation."
 	pool := fx.NewPool(fx.Ed25519, fx.SHA256, "ok")
 	alpha := []string{"C", "C~h", "U01", "U01b", "U12", "U01~w", "U01~p", "R01", "R12", "V01", "D0", "D1", "Fc(U01)", "U10"}
 	grid := []Coord{{1, 0}, {1, 2}, {2, 0}, {2, 1}, {3, 0}}
@@ -137,6 +138,9 @@ func c06(r *hx.Run) {
 								fmt.Sprintf("history %v at T=%d changes when %s is anchored later at %d.0\n  before: %s\n  after : %s", placedDesc(placed), T, x, maxT+1, got.R, got2.R), nil)
 						}
 						// the same extension supplied by the caller as an additional operation, option before / after the version option
+						if r.Tier == "quick" && x != "U01" && x != "R01" { // quick: two of the five extensions this way; thorough: all
+							continue
+						}
 						add := document.WithAdditionalOperations([]*operation.AnchoredOperation{extended[len(extended)-1].Anchored(pool.Suffix)})
 						for oi, opts := range [][]document.ResolutionOption{{add, document.WithVersionTime(ts)}, {document.WithVersionTime(ts), add}} {
 							got3 := projectHist(ResolveImpl(client, pool.Suffix, placed, opts...))
@@ -214,6 +218,9 @@ func c06(r *hx.Run) {
 							r.Violation("version-id-extension:"+diffFields(got2.R, got.R), caseID+"|ext="+x,
 								fmt.Sprintf("history %v at versionId %s changes when %s is anchored later\n  before: %s\n  after : %s", placedDesc(placed), V, x, got.R, got2.R), nil)
 						}
+						if r.Tier == "quick" && x != "U01" && x != "R01" {
+							continue
+						}
 						add := document.WithAdditionalOperations([]*operation.AnchoredOperation{extended[len(extended)-1].Anchored(pool.Suffix)})
 						for oi, opts := range [][]document.ResolutionOption{{add, document.WithVersionID(V)}, {document.WithVersionID(V), add}} {
 							got3 := projectHist(ResolveImpl(client, pool.Suffix, placed, opts...))
@@ -268,58 +275,65 @@ func c06REST(r *hx.Run, pool *fx.Pool, client protocol.Client) {
 		proc := processor.New("verif", pub, client)
 		handler := dochandler.New(ns, nil, client, &recWriter{}, proc, fx.Metrics)
 		rh := restapi.NewResolveHandler(handler, fx.Metrics)
-		did := ns + ":" + pool.Suffix
-		get := func(query string) (*document.ResolutionResult, int) {
-			rw := httptest.NewRecorder()
-			req := mux.SetURLVars(httptest.NewRequest(http.MethodGet, "/identifiers/x"+query, nil), map[string]string{"id": did})
-			rh.Resolve(rw, req)
-			if rw.Code != http.StatusOK {
-				return nil, rw.Code
+		shortDID := ns + ":" + pool.Suffix
+		ct := fx.MustJSON(string(pool.Get("C").Req)).(map[string]interface{})
+		delete(ct, "type")
+		longDID := shortDID + ":" + fx.B64(jcs.MustCanon(ct))
+		for fi, did := range []string{shortDID, longDID} {
+			formTag := []string{"", "|long-form"}[fi]
+			get := func(query string) (*document.ResolutionResult, int) {
+				rw := httptest.NewRecorder()
+				req := mux.SetURLVars(httptest.NewRequest(http.MethodGet, "/identifiers/x"+query, nil), map[string]string{"id": did})
+				rh.Resolve(rw, req)
+				if rw.Code != http.StatusOK {
+					return nil, rw.Code
+				}
+				var res document.ResolutionResult
+				if err := json.Unmarshal(rw.Body.Bytes(), &res); err != nil {
+					return nil, -1
+				}
+				return &res, rw.Code
 			}
-			var res document.ResolutionResult
-			if err := json.Unmarshal(rw.Body.Bytes(), &res); err != nil {
-				return nil, -1
+			check := func(caseID, query string, opt document.ResolutionOption) {
+				caseID += formTag
+				if !r.Want(caseID) {
+					return
+				}
+				rm, err := proc.Resolve(pool.Suffix, opt)
+				res, code := get(query)
+				r.Eval()
+				r.State()
+				r.Trans(1)
+				r.Trace(1)
+				r.Nontrivial(caseID)
+				if (err == nil) != (code == http.StatusOK) {
+					r.Violation("rest-historical-status", caseID, fmt.Sprintf("history %v query %q: HTTP %d, processor error %v", placedDesc(h), query, code, err), nil)
+					return
+				}
+				if err != nil {
+					return
+				}
+				want := refProject(doc.Plain(map[string]interface{}(rm.Doc)).(map[string]interface{}), shortDID, c19Opts{})
+				md := doc.Plain(res.DocumentMetadata).(map[string]interface{})
+				if canonOf(res.Document) != canonOf(want) || fmt.Sprint(md["versionId"]) != fmt.Sprint(nilIfEmpty(rm.VersionID)) {
+					r.Violation("rest-historical-view", caseID, fmt.Sprintf("history %v query %q: REST answer (versionId %v) differs from the processor's historical view (versionId %q)\n  rest: %s\n  want: %s",
+						placedDesc(h), query, md["versionId"], rm.VersionID, hx.Trunc(canonOf(res.Document), 400), hx.Trunc(canonOf(want), 400)), nil)
+				}
 			}
-			return &res, rw.Code
-		}
-		check := func(caseID, query string, opt document.ResolutionOption) {
-			if !r.Want(caseID) {
-				return
+			for _, pl := range h {
+				check(fmt.Sprintf("rest|%d|V=%s", hi, pl.Ref()), "?versionId="+pl.Ref(), document.WithVersionID(pl.Ref()))
 			}
-			rm, err := proc.Resolve(pool.Suffix, opt)
-			res, code := get(query)
-			r.Eval()
-			r.State()
-			r.Trans(1)
-			r.Trace(1)
-			r.Nontrivial(caseID)
-			if (err == nil) != (code == http.StatusOK) {
-				r.Violation("rest-historical-status", caseID, fmt.Sprintf("history %v query %q: HTTP %d, processor error %v", placedDesc(h), query, code, err), nil)
-				return
+			check(fmt.Sprintf("rest|%d|V=unknown", hi), "?versionId=nope", document.WithVersionID("nope"))
+			for T := int64(-1); T <= 6; T++ {
+				ts := time.Unix(T, 0).UTC().Format(time.RFC3339)
+				check(fmt.Sprintf("rest|%d|T=%d", hi, T), "?versionTime="+ts, document.WithVersionTime(ts))
 			}
-			if err != nil {
-				return
-			}
-			want := refProject(doc.Plain(map[string]interface{}(rm.Doc)).(map[string]interface{}), did, c19Opts{})
-			md := doc.Plain(res.DocumentMetadata).(map[string]interface{})
-			if canonOf(res.Document) != canonOf(want) || fmt.Sprint(md["versionId"]) != fmt.Sprint(nilIfEmpty(rm.VersionID)) {
-				r.Violation("rest-historical-view", caseID, fmt.Sprintf("history %v query %q: REST answer (versionId %v) differs from the processor's historical view (versionId %q)\n  rest: %s\n  want: %s",
-					placedDesc(h), query, md["versionId"], rm.VersionID, hx.Trunc(canonOf(res.Document), 400), hx.Trunc(canonOf(want), 400)), nil)
-			}
-		}
-		for _, pl := range h {
-			check(fmt.Sprintf("rest|%d|V=%s", hi, pl.Ref()), "?versionId="+pl.Ref(), document.WithVersionID(pl.Ref()))
-		}
-		check(fmt.Sprintf("rest|%d|V=unknown", hi), "?versionId=nope", document.WithVersionID("nope"))
-		for T := int64(-1); T <= 6; T++ {
-			ts := time.Unix(T, 0).UTC().Format(time.RFC3339)
-			check(fmt.Sprintf("rest|%d|T=%d", hi, T), "?versionTime="+ts, document.WithVersionTime(ts))
-		}
-		check(fmt.Sprintf("rest|%d|T=garbage", hi), "?versionTime=yesterday", document.WithVersionTime("yesterday"))
-		caseID := fmt.Sprintf("rest|%d|both", hi)
-		if r.Want(caseID) {
-			if _, code := get("?versionId=" + h[0].Ref() + "&versionTime=1970-01-01T00:00:02Z"); code != http.StatusBadRequest {
-				r.Violation("rest-both-parameters", caseID, fmt.Sprintf("versionId and versionTime together answered HTTP %d, want 400", code), nil)
+			check(fmt.Sprintf("rest|%d|T=garbage", hi), "?versionTime=yesterday", document.WithVersionTime("yesterday"))
+			caseID := fmt.Sprintf("rest|%d|both%s", hi, formTag)
+			if r.Want(caseID) {
+				if _, code := get("?versionId=" + h[0].Ref() + "&versionTime=1970-01-01T00:00:02Z"); code != http.StatusBadRequest {
+					r.Violation("rest-both-parameters", caseID, fmt.Sprintf("versionId and versionTime together answered HTTP %d, want 400", code), nil)
+				}
 			}
 		}
 	}
